@@ -212,6 +212,5 @@ def r5(c):
     # on the server the only thing raced with the frame reader is the command queue; applying ChangeDecoding returns Ok
     ro = P.fn('rodbus::server::task::SessionTask::run_one')
     ac = one(ro.calls('rodbus::server::task::SessionTask::apply_command'), 'apply_command')
-    oke = q.outcomes(ro, ac).get('Ok', [])
-    xs = [x for x in q.exits(ro) if any(q.dom(ro, e, x['node']) for e in oke)]
-    c.ob('server/command-continues', bool(xs) and all(x['kind'] == 'agg' and x['variant'] == 'Ok' for x in xs), 'after a successfully applied command run_one returns Ok: the session loop goes on with the same reader', '', ac.loc())
+    okc, how, why = q.success_leaves(ro, ac)
+    c.ob('server/command-continues', okc, 'after a successfully applied command run_one returns Ok: the session loop goes on with the same reader', '%s: %s' % (how, why), ac.loc())
